@@ -188,6 +188,11 @@ func (c *absCtx) val(t *Term) aval {
 		a, b := c.val(t.Args[0]), c.val(t.Args[1])
 		if a.hi <= m-b.hi {
 			r = aval{lo: a.lo + b.lo, hi: a.hi + b.hi}
+		} else if b.lo == b.hi && w == 64 && b.lo >= 1<<63 {
+			// x + (2^64 - k) is x - k when x >= k
+			if k := -b.lo; a.lo >= k {
+				r = aval{lo: a.lo - k, hi: a.hi - k}
+			}
 		}
 	case "bvsub":
 		a, b := c.val(t.Args[0]), c.val(t.Args[1])
@@ -338,6 +343,14 @@ func (c *absCtx) tri(t *Term) int8 {
 			case (a.ko&b.kz)|(a.kz&b.ko) != 0:
 				r = triFalse
 			}
+			if r == triUnknown {
+				le, ge := c.zoneCmp(x, y, false), c.zoneCmp(y, x, false)
+				if le == triFalse || ge == triFalse {
+					r = triFalse
+				} else if le == triTrue && ge == triTrue {
+					r = triTrue
+				}
+			}
 		}
 	case "bvult", "bvule", "bvugt", "bvuge":
 		a, b := c.val(t.Args[0]), c.val(t.Args[1])
@@ -363,6 +376,13 @@ func (c *absCtx) tri(t *Term) int8 {
 				r = triFalse
 			}
 		}
+		if r == triUnknown {
+			X, Y := t.Args[0], t.Args[1]
+			if t.Op == "bvugt" || t.Op == "bvuge" {
+				X, Y = Y, X
+			}
+			r = c.zoneCmp(X, Y, op == "bvult")
+		}
 	case "bvslt", "bvsle", "bvsgt", "bvsge":
 		a, b := c.val(t.Args[0]), c.val(t.Args[1])
 		op := t.Op
@@ -372,6 +392,16 @@ func (c *absCtx) tri(t *Term) int8 {
 				op = "bvslt"
 			} else {
 				op = "bvsle"
+			}
+		}
+		if t.Args[0].W == 64 && a.hi < uint64(zInf) && b.hi < uint64(zInf) {
+			X, Y := t.Args[0], t.Args[1]
+			if t.Op == "bvsgt" || t.Op == "bvsge" {
+				X, Y = Y, X
+			}
+			if zr := c.zoneCmp(X, Y, op == "bvslt"); zr != triUnknown {
+				c.bm[t] = zr
+				return zr
 			}
 		}
 		alo, ahi, ok1 := signedRange(a, t.Args[0].W)
@@ -456,7 +486,14 @@ func (c *absCtx) learn(lit *Term, val bool) {
 			// (a + k) in [lo,hi] with no wrap possible when lo >= k  =>  a in [lo-k, hi-k]
 			for i := 0; i < 2; i++ {
 				k, a := t.Args[i], t.Args[1-i]
-				if k.IsConst() {
+				if k.IsConst() && w == 64 && k.C >= 1<<63 {
+					// t = a - nk (a >= nk known): a = t + nk
+					nk := -k.C
+					av := c.val(a)
+					if av.lo >= nk && n.hi <= mask(w)-nk {
+						c.refineTerm(a, aval{lo: n.lo + nk, hi: n.hi + nk})
+					}
+				} else if k.IsConst() {
 					av := c.val(a)
 					if av.hi <= mask(w)-k.C && n.lo >= k.C { // a+k does not wrap
 						c.refineTerm(a, aval{lo: n.lo - k.C, hi: n.hi - k.C})
@@ -559,6 +596,51 @@ func (c *absCtx) learn(lit *Term, val bool) {
 			}
 		}
 	}
+	if w == 64 {
+		zop := ""
+		switch op {
+		case "=":
+			zop = "eq"
+		case "bvult", "bvslt":
+			zop = "ult"
+		case "bvule", "bvsle":
+			zop = "ule"
+		case "!=":
+			zop = "ne"
+		}
+		if zop != "" {
+			signed := op == "bvslt" || op == "bvsle"
+			c.st.zonePend = append(c.st.zonePend, zonePending{zop, x, y, signed})
+		}
+	}
+}
+
+type zonePending struct {
+	op     string
+	x, y   *Term
+	signed bool
+}
+
+// zoneRetry turns pending comparison literals into zone edges once both sides
+// have a known non-wrapping range.
+func (c *absCtx) zoneRetry() {
+	st := c.st
+	keep := st.zonePend[:0:0]
+	for _, p := range st.zonePend {
+		a, b := c.val(p.x), c.val(p.y)
+		if a.hi < uint64(zInf) && b.hi < uint64(zInf) && c.linOf(p.x).ok && c.linOf(p.y).ok {
+			c.zoneLearn(p.op, p.x, p.y)
+			if p.op == "ne" {
+				keep = append(keep, p) // a later bound may land on the excluded value
+			}
+			continue
+		}
+		if p.signed {
+			continue // signed literal over a possibly negative operand: never usable
+		}
+		keep = append(keep, p)
+	}
+	st.zonePend = keep
 }
 
 func (c *absCtx) refineTerm(t *Term, f aval) {
@@ -573,9 +655,11 @@ func (st *State) absorb() *absCtx {
 	if st.ivFacts == nil {
 		st.ivFacts = map[*Term]aval{}
 		st.boolFacts = map[*Term]bool{}
+		st.zone = newZone()
 	}
 	for st.factsN < len(st.pc) {
 		c.learn(st.pc[st.factsN], true)
+		c.zoneRetry()
 		st.factsN++
 		c.memo = map[*Term]aval{}
 		c.bm = map[*Term]int8{}
